@@ -205,25 +205,34 @@ static void M__ZNSt9exceptionD2Ev(void* self) { (void)self; }
 static void M__ZN5bloch7support6formatENS0_13ErrorCategoryEiiRKNSt7__cxx1112basic_stringIcSt11char_traitsIcESaIcEEE(void* sret, uint32_t cat, uint32_t line, uint32_t col, void* msg) {
   (void)cat; (void)line; (void)col; (void)msg; ir2c_string_init(sret, "");
 }
-/* bloch::runtime::runtimeSignatureLabel(name, params) (file-local; builds its text through std::ostringstream, whose
-   locale/streambuf machinery is not translated): model "name(" + one letter per parameter + ")" - one letter per
-   Value::Type kind, 'C' for class-typed parameters.  Labels stay distinct for overloads that differ in arity or in a
-   primitive parameter kind, which is all the class-table queries use; class-typed overloads are outside these queries. */
-static void M__ZN5bloch7runtimeL21runtimeSignatureLabelERKNSt7__cxx1112basic_stringIcSt11char_traitsIcESaIcEEERKSt6vectorINS0_15RuntimeTypeInfoESaISA_EE(void* sret, void* name, void* params) {
+/* Signature labels.  bloch::runtime::runtimeSignatureLabel(name, params) and the analyser's methodSignatureLabel(name, params)
+   (both file-local) build "name(type,...)" through std::ostringstream, whose locale/streambuf machinery is not translated.
+   Model: "name(" + one letter per parameter kind + ")".  The label is only ever compared for equality, and the model is
+   injective on overload sets whose parameters are primitives; a class-typed parameter is a model limit (reported, not guessed). */
+static void ir2c_signature_label(void* sret, void* name, void* params, uint64_t elem, uint64_t class_off) {
   struct ir2c_string* nm = (struct ir2c_string*)name;
   char** vec = (char**)params;
   char buf[16]; uint64_t n = 0;
-  uint64_t cnt = (uint64_t)IR2C_PTRDIFF(vec[1], vec[0]) / 64;
+  uint64_t cnt = (uint64_t)IR2C_PTRDIFF(vec[1], vec[0]) / elem;
   if (nm->len + cnt + 2 > 15) IR2C_MODEL_LIMIT("model signature label longer than SSO");
   for (uint64_t i = 0; i < nm->len; i++) buf[n++] = nm->p[i];
   buf[n++] = '(';
   for (uint64_t i = 0; i < cnt; i++) {
-    char* e = vec[0] + 64 * i;
-    struct ir2c_string* cn = (struct ir2c_string*)(e + 8);
-    buf[n++] = cn->len ? 'C' : (char)('a' + *(int32_t*)e);
+    char* e = vec[0] + elem * i;
+    struct ir2c_string* cn = (struct ir2c_string*)(e + class_off);
+    if (cn->len) IR2C_MODEL_LIMIT("model signature label: class-typed parameter");
+    buf[n++] = (char)('a' + *(int32_t*)e);
   }
   buf[n++] = ')'; buf[n] = 0;
   ir2c_string_init(sret, buf);
+}
+/* RuntimeTypeInfo = { i32 kind; std::string className @8; vector typeArgs @40 } (64 bytes) */
+static void M__ZN5bloch7runtimeL21runtimeSignatureLabelERKNSt7__cxx1112basic_stringIcSt11char_traitsIcESaIcEEERKSt6vectorINS0_15RuntimeTypeInfoESaISA_EE(void* sret, void* name, void* params) {
+  ir2c_signature_label(sret, name, params, 64, 8);
+}
+/* SemanticAnalyser::TypeInfo = { i32 value; std::string className @8; vector typeArgs @40; bool isTypeParam @64 } (72 bytes) */
+static void M__ZN5bloch8compiler12_GLOBAL__N_120methodSignatureLabelERKNSt7__cxx1112basic_stringIcSt11char_traitsIcESaIcEEERKSt6vectorINS0_16SemanticAnalyser8TypeInfoESaISC_EE(void* sret, void* name, void* params) {
+  ir2c_signature_label(sret, name, params, 72, 8);
 }
 /* std::to_string(double) body helper: fixed token (six-decimal rendering is libc formatting, outside the claim) */
 static void M__ZN9__gnu_cxx12__to_xstringINSt7__cxx1112basic_stringIcSt11char_traitsIcESaIcEEEcEET_PFiPT0_mPKS8_P13__va_list_tagEmSB_z(void* sret, void* conv, uint64_t n, void* fmt, ...) {
